@@ -370,3 +370,159 @@ Proof.
   intros W. pose proof (stream_reader_exact_tail url cfg items [] W) as H.
   rewrite app_nil_r in H. rewrite H. cbn. rewrite app_nil_r. reflexivity.
 Qed.
+
+(* ---------- boundedness ---------- *)
+Lemma strip_cr_lower l : zlen l - 1 <= zlen (strip_cr l).
+Proof.
+  induction l as [|c l IH]; [cbn; lia|]. cbn [strip_cr]. destruct l as [|d l].
+  - destruct (c =? CR); rewrite ?zlen_cons, ?zlen_nil; lia.
+  - rewrite (zlen_cons c (d :: l)), (zlen_cons c (strip_cr (d :: l))). lia.
+Qed.
+
+Lemma prefix_before_lf p : forall t raw r, p ++ t = raw ++ LF :: r -> ~ In LF p -> zlen p <= zlen raw.
+Proof.
+  induction p as [|x p IH]; intros t raw r E N; [rewrite zlen_nil; apply zlen_nonneg|].
+  destruct raw as [|y raw].
+  - cbn [app] in E. inversion E; subst. exfalso. apply N. left. reflexivity.
+  - cbn [app] in E. inversion E; subst. rewrite !zlen_cons.
+    specialize (IH t raw r H1 ltac:(intros I; apply N; right; exact I)). lia.
+Qed.
+
+(* an over-long line is refused on the strength of its first max_line + 2 bytes alone *)
+Theorem line_too_long p t :
+  ~ In LF p -> max_line + 2 <= zlen p -> read_line (p ++ t) = Err ELineTooLong.
+Proof.
+  intros N L. destruct (p ++ t) as [|c s] eqn:E.
+  - destruct p; [rewrite zlen_nil in L; unfold max_line in L; lia|discriminate].
+  - rewrite read_line_unfold. destruct (split_lf (c :: s)) as [[raw r]|] eqn:S.
+    + apply split_lf_some in S as [E2 _]. rewrite <- E in E2.
+      pose proof (prefix_before_lf p t raw r E2 N). pose proof (strip_cr_lower raw).
+      replace (zlen (strip_cr raw) >? max_line) with true by lia. reflexivity.
+    + rewrite <- E, zlen_app. pose proof (zlen_nonneg t).
+      replace (zlen p + zlen t >? max_line) with true by lia. reflexivity.
+Qed.
+
+(* an absurd Content-Length is refused whatever follows: no byte of the body is needed *)
+Theorem body_too_big h s : max_body < content_length h -> read_body h s = Err EBodyTooBig.
+Proof.
+  intros H. unfold read_body, read_body_lim. unfold max_body in *.
+  replace (content_length h <=? 0) with false by lia.
+  replace (content_length h >? 1048576) with true by lia. reflexivity.
+Qed.
+
+Lemma vals_size_app k vs v : vals_size k (vs ++ [v]) = vals_size k vs + zlen k + zlen v.
+Proof. induction vs as [|x vs IH]; cbn [vals_size app]; lia. Qed.
+
+Lemma hsize_hadd h k v : hsize (hadd h k v) = hsize h + zlen k + zlen v /\ hcount (hadd h k v) = hcount h + 1.
+Proof.
+  induction h as [|[k' vs] h [IH1 IH2]]; cbn [hadd hsize hcount vals_size length].
+  - cbn [vals_size]. lia.
+  - destruct (bytes_eqb k' k) eqn:E; cbn [hsize hcount].
+    + apply bytes_eqb_eq in E. subst k'. rewrite vals_size_app, app_length. cbn [length]. lia.
+    + lia.
+Qed.
+
+Lemma to_upper_len s : zlen (to_upper s) = zlen s.
+Proof. unfold zlen, to_upper. rewrite map_length. reflexivity. Qed.
+Lemma canon_key_len k : zlen (canon_key k) = zlen k.
+Proof.
+  unfold canon_key. destruct (find _ canonical_keys) as [ck|] eqn:F; [|reflexivity].
+  apply find_some in F as [_ E]. apply bytes_eqb_eq in E. rewrite <- (to_upper_len ck), E. apply to_upper_len.
+Qed.
+
+Lemma parse_header_line_size kv k v r : parse_header_line kv = Ok (HLField k v) r -> zlen k + zlen v <= zlen kv.
+Proof.
+  unfold parse_header_line. destruct (index_byte COLON kv <? 0); [discriminate|].
+  destruct (slice kv 0 (index_byte COLON kv)) as [a|] eqn:A; [|discriminate].
+  destruct (slice kv (index_byte COLON kv + 1) (zlen kv)) as [b|] eqn:B; [|discriminate].
+  destruct (zlen (canonical_kv a) =? 0); [discriminate|]. intros H; inversion H; subst.
+  apply slice_len in A as (LA & _). apply slice_len in B as (LB & _).
+  rewrite canon_key_len. pose proof (canonical_kv_len a). pose proof (canonical_kv_len b). lia.
+Qed.
+
+Lemma read_header_f_size f : forall s h h' rest,
+  read_header_f f s h = Ok h' rest -> hsize h <= max_line * hcount h -> hsize h' <= max_line * hcount h'.
+Proof.
+  induction f as [|f IH]; intros s h h' rest; cbn [read_header_f]; [discriminate|].
+  destruct (read_line s) as [kv r|e|] eqn:R; [|discriminate|discriminate].
+  apply read_line_ok in R as (LL & _).
+  destruct (zlen kv =? 0); [intros H; inversion H; subst; tauto|].
+  destruct (parse_header_line kv) as [[|k v] ?|e|] eqn:P; try discriminate; [apply IH|].
+  intros H I. eapply IH; [exact H|]. apply parse_header_line_size in P.
+  destruct (hsize_hadd h k v) as [-> ->]. lia.
+Qed.
+
+Lemma parse_request_line_size url line m u p r :
+  parse_request_line url line = Ok (m, u, p) r -> zlen m + zlen p <= zlen line.
+Proof.
+  unfold parse_request_line.
+  destruct (slice line (index_byte SP line + 1) (zlen line)) as [tail|] eqn:T; [|discriminate].
+  destruct ((index_byte SP line <? 0) || (index_byte SP tail <? 0)) eqn:E; [discriminate|].
+  destruct (slice line 0 (index_byte SP line)) as [a|] eqn:A; [|discriminate].
+  destruct (slice line (index_byte SP line + 1) (index_byte SP tail + index_byte SP line + 1)) as [b|] eqn:B; [|discriminate].
+  destruct (slice line (index_byte SP tail + index_byte SP line + 1 + 1) (zlen line)) as [c|] eqn:C; [|discriminate].
+  destruct (zlen (trim_sp a) =? 0); [discriminate|]. destruct (idx (trim_sp a) 0); [|discriminate].
+  destruct (z =? DOLLAR); [discriminate|].
+  destruct (negb (bytes_eqb (trim_sp a) OPTIONS) && bytes_eqb (trim_sp b) STAR); [discriminate|].
+  destruct (url (trim_sp b)); [|discriminate]. intros H; inversion H; subst.
+  apply slice_len in A as (LA & _). apply slice_len in B as (LB & ? & ? & ?). apply slice_len in C as (LC & _).
+  pose proof (trim_sp_len a). pose proof (trim_sp_len c). lia.
+Qed.
+
+Lemma parse_status_line_size line pr code st r :
+  parse_status_line line = Ok (pr, code, st) r -> zlen pr + zlen st <= zlen line.
+Proof.
+  unfold parse_status_line. destruct (index_byte SP line <? 0) eqn:E; [discriminate|].
+  destruct (slice line 0 (index_byte SP line)) as [a|] eqn:A; [|discriminate].
+  destruct (slice line (index_byte SP line + 1) (zlen line)) as [b|] eqn:B; [|discriminate].
+  destruct (if index_byte SP (trim_left (Z.eqb SP) b) <? 0 then Some (trim_left (Z.eqb SP) b)
+            else slice (trim_left (Z.eqb SP) b) 0 (index_byte SP (trim_left (Z.eqb SP) b))) as [cs|]; [|discriminate].
+  destruct (negb (zlen cs =? 3)); [discriminate|]. destruct (parse_dec cs) as [c|]; [|discriminate].
+  destruct (c <? 0); [discriminate|]. intros H; inversion H; subst.
+  apply slice_len in A as (LA & _). apply slice_len in B as (LB & _).
+  pose proof (trim_left_len (Z.eqb SP) b). lia.
+Qed.
+
+(* the memory a parsed message holds: one line's worth per header value plus one for the
+   first line, plus the body limit (the Request-URI is held by net/url) *)
+Theorem request_bounded url s q rest : read_request url s = Ok q rest ->
+  request_size q <= max_line * (hcount (q_hdr q) + 1) + max_body.
+Proof.
+  unfold read_request. destruct (read_line s) as [line s1|e|] eqn:R; try discriminate.
+  apply read_line_ok in R as (LL & _).
+  destruct (parse_request_line url line) as [[[m u] p] ?|e|] eqn:P; try discriminate.
+  apply parse_request_line_size in P.
+  unfold read_header. destruct (read_header_f (S (length s1)) s1 []) as [h s2|e|] eqn:H; try discriminate.
+  apply read_header_f_size in H; [|cbn; lia].
+  destruct (read_body h s2) as [b s3|e|] eqn:B; try discriminate. apply read_body_ok in B as [_ B].
+  intros X; inversion X; subst. unfold request_size. cbn [q_method q_proto q_hdr q_body]. lia.
+Qed.
+
+Theorem response_bounded s p rest : read_response s = Ok p rest ->
+  response_size p <= max_line * (hcount (p_hdr p) + 1) + max_body.
+Proof.
+  unfold read_response. destruct (read_line s) as [line s1|e|] eqn:R; try discriminate.
+  apply read_line_ok in R as (LL & _).
+  destruct (parse_status_line line) as [[[pr c] st] ?|e|] eqn:P; try discriminate.
+  apply parse_status_line_size in P.
+  unfold read_header. destruct (read_header_f (S (length s1)) s1 []) as [h s2|e|] eqn:H; try discriminate.
+  apply read_header_f_size in H; [|cbn; lia].
+  destruct (read_body h s2) as [b s3|e|] eqn:B; try discriminate. apply read_body_ok in B as [_ B].
+  intros X; inversion X; subst. unfold response_size. cbn [p_proto p_status p_hdr p_body]. lia.
+Qed.
+
+(* before the repair: no bound on a line, and a body cut short was padded with zeros *)
+Lemma read_line_unbounded_refuted n :
+  read_line_lim None (repeat 65 (S n) ++ [LF]) = Ok (repeat 65 (S n)) [].
+Proof.
+  unfold read_line_lim. cbn [repeat app]. 
+  assert (SL : split_lf (65 :: repeat 65 n ++ [LF]) = Some (65 :: repeat 65 n, [])).
+  { change (65 :: repeat 65 n ++ [LF]) with ((65 :: repeat 65 n) ++ LF :: []). apply split_lf_app.
+    intros I. change (65 :: repeat 65 n) with (repeat 65 (S n)) in I. apply repeat_spec in I. discriminate. }
+  rewrite SL. f_equal.
+  assert (G : forall l, (forall x, In x l -> x = 65) -> strip_cr l = l).
+  { induction l as [|a l IH]; intros A; [reflexivity|]. cbn [strip_cr]. destruct l as [|b l].
+    - rewrite (A a (or_introl eq_refl)). reflexivity.
+    - rewrite IH; [reflexivity|]. intros x I. apply A. right. exact I. }
+  apply G. intros x I. change (65 :: repeat 65 n) with (repeat 65 (S n)) in I. apply repeat_spec in I. exact I.
+Qed.
